@@ -4,6 +4,7 @@
 -/
 import DymVerif.Lemmas.Keys
 import DymVerif.Lemmas.Keys2
+import DymVerif.Lemmas.Keys3
 import DymVerif.Gen.Keys
 import DymVerif.Lemmas.GenEqKeys
 namespace DymVerif.C19
@@ -453,5 +454,247 @@ theorem iro_families_disjoint (a b : Bytes) :
 -- non-vacuity (IRO)
 example : rollappIDFromIRODenom [73, 82, 79, 47, 114, 95, 49, 45, 49] = some [114, 95, 49, 45, 49] ∧
     rollappIDFromIRODenom [73, 82, 79, 120] = none := by decide
+
+/-! ## Lockup reference keys (x/lockup): `combineKeys` joins with the separator 0xFF
+
+A lock reference is stored under `U FF family FF [owner FF] [denom FF] subkey FF be64(lockID)` where
+`U` = 0x03 (not unlocking) / 0x04 (unlocking), `subkey` = duration key `06 FF be64(d)` or time key
+`05 be64(29) formatted-time`.  Scans (iterator.go) are prefix scans or ranges between such keys.
+Hypotheses used, stated where needed: denoms contain no byte 0xFF (the SDK's denom regex is ASCII);
+owner addresses of the two entries have equal length (all 20-byte, or all 32-byte). -/
+
+/-- C19 "sort numerically" (duration): for non-negative int64 durations the duration keys sort as the durations -/
+theorem lockup_duration_key_order (d d' : Int) (h0 : 0 ≤ d) (h0' : 0 ≤ d') (h : d < 2 ^ 63) (h' : d' < 2 ^ 63) :
+    lexLt (lkDurationKey d) (lkDurationKey d') = decide (d < d') := by
+  rw [lkDurationKey_eq d h0, lkDurationKey_eq d' h0']
+  simp only [lexLt, Nat.lt_irrefl, if_false]
+  rw [lexLt_be64 _ _ (by omega) (by omega)]
+  by_cases hd : d < d'
+  · have : d.toNat < d'.toNat := by omega
+    simp [hd, this]
+  · have : ¬ d.toNat < d'.toNat := by omega
+    simp [hd, this]
+
+/-- the edge, stated: `getDurationKey` clamps negative durations, so every negative duration shares the key of 0 -/
+theorem lockup_duration_key_negative (d : Int) (h : d < 0) : lkDurationKey d = lkDurationKey 0 := by
+  simp [lkDurationKey, h]
+
+/-- C19 "sort by time" (lockup): time keys sort chronologically for in-range times -/
+theorem lockup_time_key_order (a b : TimeF) (ha : a.InRange) (hb : b.InRange) :
+    lexLt (lkTimeKey a) (lkTimeKey b) = lexLt a.fields b.fields := by
+  rw [lkTimeKey_eq a ha, lkTimeKey_eq b hb, lexLt_append_left, lexLt_fmtTime a b ha hb]
+
+theorem lockup_time_key_injective (a b : TimeF) (ha : a.InRange) (hb : b.InRange)
+    (h : lkTimeKey a = lkTimeKey b) : a = b := by
+  rw [lkTimeKey_eq a ha, lkTimeKey_eq b hb] at h
+  exact fmtTime_inj a b ha hb (List.append_cancel_left h)
+
+/-- the reference keys of a lock are exactly: the four duration-indexed families (0x07 all, 0x08 by
+    owner, 0x09 by denom, 0x0A by owner and denom) and the four time-indexed ones (0x0B..0x0E) -/
+theorem lock_ref_keys_mem (l : LockK) (k : Bytes) :
+    k ∈ lockRefKeys l ↔
+      k = combineKeys [[7], lkDurationKey l.duration] ∨
+      k = combineKeys [[8], l.owner, lkDurationKey l.duration] ∨
+      (∃ dn ∈ l.denoms, k = combineKeys [[9], dn, lkDurationKey l.duration] ∨
+        k = combineKeys [[10], l.owner, dn, lkDurationKey l.duration]) ∨
+      k = combineKeys [[11], lkTimeKey l.endTime] ∨
+      k = combineKeys [[12], l.owner, lkTimeKey l.endTime] ∨
+      (∃ dn ∈ l.denoms, k = combineKeys [[13], dn, lkTimeKey l.endTime] ∨
+        k = combineKeys [[14], l.owner, dn, lkTimeKey l.endTime]) := by
+  simp only [lockRefKeys, durationLockRefKeys, List.mem_append, List.mem_cons, List.mem_flatMap,
+    List.not_mem_nil, or_false]
+  constructor
+  · rintro ((((h | h) | ⟨dn, hd, h⟩) | h | h) | ⟨dn, hd, h⟩)
+    · exact Or.inl h
+    · exact Or.inr (Or.inl h)
+    · exact Or.inr (Or.inr (Or.inl ⟨dn, hd, h⟩))
+    · exact Or.inr (Or.inr (Or.inr (Or.inl h)))
+    · exact Or.inr (Or.inr (Or.inr (Or.inr (Or.inl h))))
+    · exact Or.inr (Or.inr (Or.inr (Or.inr (Or.inr ⟨dn, hd, h⟩))))
+  · rintro (h | h | ⟨dn, hd, h⟩ | h | h | ⟨dn, hd, h⟩)
+    · exact Or.inl (Or.inl (Or.inl (Or.inl h)))
+    · exact Or.inl (Or.inl (Or.inl (Or.inr h)))
+    · exact Or.inl (Or.inl (Or.inr ⟨dn, hd, h⟩))
+    · exact Or.inl (Or.inr (Or.inl h))
+    · exact Or.inl (Or.inr (Or.inr h))
+    · exact Or.inr ⟨dn, hd, h⟩
+
+/-- **the end-blocker's matured-locks scan** `LockIteratorBeforeTime(ctx, T)` returns the time
+    reference of an unlocking lock exactly when its end time is ≤ T -/
+theorem lockup_matured_scan_exact (T t : TimeF) (id : Nat) (hT : T.InRange) (ht : t.InRange) :
+    inRangeO (iterBeforeTime (lkFamilyPrefix true 11 []) T).1 (iterBeforeTime (lkFamilyPrefix true 11 []) T).2
+      (lockRefStoreKey true (combineKeys [[11], lkTimeKey t]) id) = !(lexLt T.fields t.fields) := by
+  have hend : prefixEnd (combineKeys [[4, 255, 11], lkTimeKey T]) =
+      some ([4, 255, 11, 255] ++ incLast (lkTimeKey T)) := by
+    have := prefixEnd_incLast [4, 255, 11, 255] (lkTimeKey T) (lkTimeKey_ne_nil T) (lkTimeKey_lt255 T hT)
+    simpa [combineKeys] using this
+  have hk : lockRefStoreKey true (combineKeys [[11], lkTimeKey t]) id =
+      [4, 255, 11] ++ (255 :: (lkTimeKey t ++ 255 :: be64 id)) := by
+    simp [lockRefStoreKey, combineKeys, unlockingPrefix]
+  have hp : lkFamilyPrefix true 11 [] = [4, 255, 11] := by simp [lkFamilyPrefix, combineKeys, unlockingPrefix]
+  simp only [iterBeforeTime, inRangeO, hk, hp, hend, lexLe, lexLt_self_append, Bool.not_false, Bool.true_and]
+  have : lexLt ([4, 255, 11] ++ 255 :: (lkTimeKey t ++ 255 :: be64 id)) ([4, 255, 11, 255] ++ incLast (lkTimeKey T))
+      = lexLt (lkTimeKey t ++ 255 :: be64 id) (incLast (lkTimeKey T)) := by simp [lexLt]
+  rw [this, timeKey_tail_lt T t hT ht]
+
+/-- the per-owner variant `AccountLockIteratorBeforeTime(addr, T)` (what `GetAccountUnlockableCoins`
+    reads): returns an entry of owner `B` with end time `t` exactly when `B = A` and `t ≤ T` — for
+    owners of equal address length -/
+theorem lockup_account_before_time_scan_exact (A B : Bytes) (T t : TimeF) (id : Nat)
+    (hl : A.length = B.length) (hT : T.InRange) (ht : t.InRange) :
+    inRangeO (iterBeforeTime (lkFamilyPrefix true 12 [A]) T).1 (iterBeforeTime (lkFamilyPrefix true 12 [A]) T).2
+      (lockRefStoreKey true (combineKeys [[12], B, lkTimeKey t]) id) =
+      (decide (B = A) && !(lexLt T.fields t.fields)) := by
+  have hend : prefixEnd (combineKeys [[4, 255, 12, 255] ++ A, lkTimeKey T]) =
+      some ([4, 255, 12, 255] ++ (A ++ 255 :: incLast (lkTimeKey T))) := by
+    have := prefixEnd_incLast ([4, 255, 12, 255] ++ A ++ [255]) (lkTimeKey T) (lkTimeKey_ne_nil T) (lkTimeKey_lt255 T hT)
+    simpa [combineKeys] using this
+  have hk : lockRefStoreKey true (combineKeys [[12], B, lkTimeKey t]) id =
+      [4, 255, 12, 255] ++ (B ++ 255 :: (lkTimeKey t ++ 255 :: be64 id)) := by
+    simp [lockRefStoreKey, combineKeys, unlockingPrefix]
+  have hp : lkFamilyPrefix true 12 [A] = [4, 255, 12, 255] ++ A := by
+    simp [lkFamilyPrefix, combineKeys, unlockingPrefix]
+  simp only [iterBeforeTime, inRangeO, hk, hp, hend]
+  have := inRange_prefix [4, 255, 12, 255] A (A ++ 255 :: incLast (lkTimeKey T)) (B ++ 255 :: (lkTimeKey t ++ 255 :: be64 id))
+  simp only [inRange] at this
+  rw [this]
+  have e := eqlen_range A B (255 :: incLast (lkTimeKey T)) (255 :: (lkTimeKey t ++ 255 :: be64 id)) hl
+  simp only [inRange] at e
+  rw [e]
+  simp only [lexLt, Nat.lt_irrefl, if_false, timeKey_tail_lt T t hT ht]
+
+/-- `LockIteratorAfterTimeDenom(denom, T)` (what `GetLocksPastTimeDenom` reads): returns an entry of
+    denom `dn'` with end time `t` exactly when `dn' = dn` and `t` is strictly after `T` — for every pair
+    of denoms without the byte 0xFF, *including* denoms that extend one another -/
+theorem lockup_denom_after_time_scan_exact (dn dn' : Bytes) (T t : TimeF) (id : Nat)
+    (hne : dn ≠ []) (hd : ∀ c ∈ dn, c < 255) (hd' : ∀ c ∈ dn', c < 255) (hT : T.InRange) (ht : t.InRange) :
+    inRangeO (iterAfterTime (lkFamilyPrefix true 13 [dn]) T).1 (iterAfterTime (lkFamilyPrefix true 13 [dn]) T).2
+      (lockRefStoreKey true (combineKeys [[13], dn', lkTimeKey t]) id) =
+      (decide (dn' = dn) && lexLt T.fields t.fields) := by
+  have hstart : prefixEnd (combineKeys [lkFamilyPrefix true 13 [dn], lkTimeKey T]) =
+      some ([4, 255, 13, 255] ++ (dn ++ 255 :: incLast (lkTimeKey T))) := by
+    have := prefixEnd_incLast ([4, 255, 13, 255] ++ dn ++ [255]) (lkTimeKey T) (lkTimeKey_ne_nil T) (lkTimeKey_lt255 T hT)
+    simpa [combineKeys, lkFamilyPrefix, unlockingPrefix] using this
+  have hend : prefixEnd (lkFamilyPrefix true 13 [dn]) = some ([4, 255, 13, 255] ++ incLast dn) := by
+    have := prefixEnd_incLast [4, 255, 13, 255] dn hne hd
+    simpa [combineKeys, lkFamilyPrefix, unlockingPrefix] using this
+  have hk : lockRefStoreKey true (combineKeys [[13], dn', lkTimeKey t]) id =
+      [4, 255, 13, 255] ++ (dn' ++ 255 :: (lkTimeKey t ++ 255 :: be64 id)) := by
+    simp [lockRefStoreKey, combineKeys, unlockingPrefix]
+  simp only [iterAfterTime, inRangeO, hstart, hend, hk, Option.getD_some]
+  have := inRange_prefix [4, 255, 13, 255] (dn ++ 255 :: incLast (lkTimeKey T)) (incLast dn)
+    (dn' ++ 255 :: (lkTimeKey t ++ 255 :: be64 id))
+  simp only [inRange] at this
+  rw [this]
+  have e := sepmax_range dn dn' (incLast (lkTimeKey T)) (lkTimeKey t ++ 255 :: be64 id) hne hd hd'
+  simp only [inRange] at e
+  rw [e, lexLe, timeKey_tail_lt T t hT ht]; simp
+
+/-- `LockIteratorLongerThanDurationDenom(u, denom, d)` (what `GetLocksDenom`, the module's balance
+    invariant and `GetLocksLongerThanDurationDenom` read): returns an entry of denom `dn'` with duration
+    `d'` exactly when `dn' = dn` and `d ≤ d'` — for every pair of denoms without the byte 0xFF -/
+theorem lockup_denom_longer_duration_scan_exact (u : Bool) (dn dn' : Bytes) (d d' : Int) (id : Nat)
+    (hne : dn ≠ []) (hd : ∀ c ∈ dn, c < 255) (hd' : ∀ c ∈ dn', c < 255)
+    (h0 : 0 ≤ d) (h0' : 0 ≤ d') (h : d < 2 ^ 63) (h' : d' < 2 ^ 63) :
+    inRangeO (iterLongerDuration (lkFamilyPrefix u 9 [dn]) d).1 (iterLongerDuration (lkFamilyPrefix u 9 [dn]) d).2
+      (lockRefStoreKey u (combineKeys [[9], dn', lkDurationKey d']) id) =
+      (decide (dn' = dn) && decide (d ≤ d')) := by
+  have hend : prefixEnd (lkFamilyPrefix u 9 [dn]) = some ((unlockingPrefix u ++ [255, 9, 255]) ++ incLast dn) := by
+    have := prefixEnd_incLast (unlockingPrefix u ++ [255, 9, 255]) dn hne hd
+    simpa [combineKeys, lkFamilyPrefix] using this
+  have hstart : combineKeys [lkFamilyPrefix u 9 [dn], lkDurationKey d] =
+      (unlockingPrefix u ++ [255, 9, 255]) ++ (dn ++ 255 :: lkDurationKey d) := by
+    simp [combineKeys, lkFamilyPrefix]
+  have hk : lockRefStoreKey u (combineKeys [[9], dn', lkDurationKey d']) id =
+      (unlockingPrefix u ++ [255, 9, 255]) ++ (dn' ++ 255 :: (lkDurationKey d' ++ 255 :: be64 id)) := by
+    simp [lockRefStoreKey, combineKeys]
+  simp only [iterLongerDuration, inRangeO, hstart, hend, hk]
+  have := inRange_prefix (unlockingPrefix u ++ [255, 9, 255]) (dn ++ 255 :: lkDurationKey d) (incLast dn)
+    (dn' ++ 255 :: (lkDurationKey d' ++ 255 :: be64 id))
+  simp only [inRange] at this
+  rw [this]
+  have e := sepmax_range dn dn' (lkDurationKey d) (lkDurationKey d' ++ 255 :: be64 id) hne hd hd'
+  simp only [inRange] at e
+  rw [e, durKey_tail_le d d' h0 h0' (by omega) (by omega)]
+
+/-- C19 "a scan for one owner never returns entries of another": `AccountLockIterator(u, A)` (what
+    `GetAccountPeriodLocks`, `GetAccountLockedCoins` and begin-unlock-all read) matches an entry of owner
+    `B` exactly when `B = A` — for owners of equal address length -/
+theorem lockup_account_scan_exact_partial (u : Bool) (A B : Bytes) (d : Int) (id : Nat) (hl : A.length = B.length) :
+    isPrefix (iterPrefix (lkFamilyPrefix u 8 [A])).1 (lockRefStoreKey u (combineKeys [[8], B, lkDurationKey d]) id)
+      = decide (A = B) := by
+  have hk : lockRefStoreKey u (combineKeys [[8], B, lkDurationKey d]) id =
+      (unlockingPrefix u ++ [255, 8, 255]) ++ (B ++ 255 :: (lkDurationKey d ++ 255 :: be64 id)) := by
+    simp [lockRefStoreKey, combineKeys]
+  have hp : lkFamilyPrefix u 8 [A] = (unlockingPrefix u ++ [255, 8, 255]) ++ A := by
+    simp [lkFamilyPrefix, combineKeys]
+  simp only [iterPrefix, hk, hp]
+  rw [isPrefix_append_left, eqlen_isPrefix A B _ hl]
+
+/-- the full statement (no length hypothesis) is false: the owner prefix carries no trailing separator,
+    so the scan for a 1-byte address returns the entry of a 2-byte address that extends it.  On the hub
+    this needs a 32-byte (module/ICA) address whose first 20 bytes equal another account's 20-byte
+    address, i.e. a 160-bit hash-prefix collision: recorded as an assumption, not as a finding. -/
+theorem lockup_account_scan_exact_counterexample :
+    isPrefix (iterPrefix (lkFamilyPrefix false 8 [[1]])).1
+      (lockRefStoreKey false (combineKeys [[8], [1, 2], lkDurationKey 5]) 7) = true := by decide
+
+/-- `AccountLockIteratorDuration(u, A, d)` (what `GetAccountLockedDuration` reads): exactly owner `A`
+    and exactly duration `d` — for owners of equal address length -/
+theorem lockup_account_duration_scan_exact (u : Bool) (A B : Bytes) (d d' : Int) (id : Nat)
+    (hl : A.length = B.length) (h0 : 0 ≤ d) (h0' : 0 ≤ d') (h : d < 2 ^ 63) (h' : d' < 2 ^ 63) :
+    isPrefix (iterDuration (lkFamilyPrefix u 8 [A]) d).1
+      (lockRefStoreKey u (combineKeys [[8], B, lkDurationKey d']) id) = (decide (A = B) && decide (d = d')) := by
+  have hk : lockRefStoreKey u (combineKeys [[8], B, lkDurationKey d']) id =
+      (unlockingPrefix u ++ [255, 8, 255]) ++ ((B ++ 255 :: 6 :: 255 :: be64 d'.toNat) ++ 255 :: be64 id) := by
+    simp [lockRefStoreKey, combineKeys, lkDurationKey_eq d' h0']
+  have hp : combineKeys [lkFamilyPrefix u 8 [A], lkDurationKey d] =
+      (unlockingPrefix u ++ [255, 8, 255]) ++ (A ++ 255 :: 6 :: 255 :: be64 d.toNat) := by
+    simp [lkFamilyPrefix, combineKeys, lkDurationKey_eq d h0]
+  simp only [iterDuration, iterPrefix, hk, hp]
+  rw [isPrefix_append_left, eqlen_isPrefix _ _ _ (by simp [be64_length, hl])]
+  by_cases hA : A = B
+  · subst hA
+    by_cases hd : d = d'
+    · subst hd; simp
+    · have : be64 d.toNat ≠ be64 d'.toNat := fun e => hd (by
+        have := be64_inj _ _ (by omega) (by omega) e; omega)
+      simp [hd, this]
+  · have : ¬ (A ++ 255 :: 6 :: 255 :: be64 d.toNat = B ++ 255 :: 6 :: 255 :: be64 d'.toNat) := fun e =>
+      hA (List.append_inj e hl).1
+    simp [hA, this]
+
+/-- the plain per-denom prefix scans `LockIteratorDenom` / `AccountLockIteratorDenom` (and the lower
+    bound of `…BeforeTimeDenom`): exported keeper methods WITHOUT callers in the hub.  Their prefix
+    `… FF denom` has no trailing separator, so the scan for a denom also returns the entries of every
+    denom that extends it ("gamm/pool/1" returns "gamm/pool/10").  Full statement kept:
+      `isPrefix (iterPrefix (lkFamilyPrefix u 9 [dn])).1 (lockRefStoreKey u (combineKeys [[9], dn', dk]) id) = decide (dn = dn')`
+    holds for equal-length denoms (`…_partial`) and fails in general (`…_counterexample`). -/
+theorem lockup_denom_prefix_scan_exact_partial (u : Bool) (dn dn' : Bytes) (d : Int) (id : Nat)
+    (hl : dn.length = dn'.length) :
+    isPrefix (iterPrefix (lkFamilyPrefix u 9 [dn])).1 (lockRefStoreKey u (combineKeys [[9], dn', lkDurationKey d]) id)
+      = decide (dn = dn') := by
+  have hk : lockRefStoreKey u (combineKeys [[9], dn', lkDurationKey d]) id =
+      (unlockingPrefix u ++ [255, 9, 255]) ++ (dn' ++ 255 :: (lkDurationKey d ++ 255 :: be64 id)) := by
+    simp [lockRefStoreKey, combineKeys]
+  have hp : lkFamilyPrefix u 9 [dn] = (unlockingPrefix u ++ [255, 9, 255]) ++ dn := by
+    simp [lkFamilyPrefix, combineKeys]
+  simp only [iterPrefix, hk, hp]
+  rw [isPrefix_append_left, eqlen_isPrefix dn dn' _ hl]
+
+theorem lockup_denom_prefix_scan_exact_counterexample :
+    let dn : Bytes := [112, 47, 49]          -- "p/1"
+    let dn' : Bytes := [112, 47, 49, 48]     -- "p/10"
+    isPrefix (iterPrefix (lkFamilyPrefix false 9 [dn])).1
+      (lockRefStoreKey false (combineKeys [[9], dn', lkDurationKey 5]) 7) = true ∧ dn ≠ dn' := by decide
+
+-- non-vacuity (lockup): hypotheses met by a realistic denom pair that extend one another
+example : (∀ c ∈ ([112, 47, 49] : Bytes), c < 255) ∧ (∀ c ∈ ([112, 47, 49, 48] : Bytes), c < 255) := by decide
+example : inRangeO (iterLongerDuration (lkFamilyPrefix false 9 [[112, 47, 49]]) 0).1
+    (iterLongerDuration (lkFamilyPrefix false 9 [[112, 47, 49]]) 0).2
+    (lockRefStoreKey false (combineKeys [[9], [112, 47, 49, 48], lkDurationKey 5]) 7) = false ∧
+  inRangeO (iterLongerDuration (lkFamilyPrefix false 9 [[112, 47, 49]]) 0).1
+    (iterLongerDuration (lkFamilyPrefix false 9 [[112, 47, 49]]) 0).2
+    (lockRefStoreKey false (combineKeys [[9], [112, 47, 49], lkDurationKey 5]) 7) = true := by decide
 
 end DymVerif.C19
